@@ -28,6 +28,7 @@ type Pipe struct {
 	ShortReads bool // offer "deliver 1 byte" as an environment deviation
 	SplitRead  bool // a Read that obtained data returns in a second step (other tasks may run in between)
 	SplitWrite bool // a Write whose bytes were accepted returns in a second step
+	MaxRead    int  // > 0: a Read delivers at most this many bytes (keeps the library's read-ahead small)
 
 	Writes []int // size of every chunk accepted (for atomicity diagnostics)
 	Reads  int
@@ -66,6 +67,9 @@ func (p *Pipe) Read(b []byte) (n int, err error) {
 			err = io.ErrClosedPipe
 		case len(p.In) > 0:
 			m := len(p.In)
+			if p.MaxRead > 0 && m > p.MaxRead {
+				m = p.MaxRead
+			}
 			if alt == 1 {
 				m = 1
 			}
